@@ -199,6 +199,29 @@ func genSound(es []stdreg.Entry) func(t *rapid.T) Case {
 		weak := make([]spec.V, len(args))
 		copy(weak, args)
 		var kinds []string
+		if len(args) > 0 && rapid.IntRange(0, 19).Draw(t, "farlenall") == 10 {
+			// every collection argument becomes an unknown collection whose only
+			// length information is one shared upper bound far above the true
+			// lengths: sums and products of such bounds overflow (2^32 * 2^32,
+			// 65536^4, (2^62+1) + (2^62+1)), which is where derived bounds go wrong
+			far := gen.FarLen(t)
+			notNull := rapid.Bool().Draw(t, "farnotnull")
+			for i, a := range args {
+				if a.St == spec.Known && a.T.IsColl() && len(a.Marks) == 0 && len(a.Elems) <= far {
+					u := spec.UnknownOf(a.T)
+					hi := far
+					u.Ref = &spec.Ref{MaxLen: &hi}
+					if notNull {
+						u.Ref.Null = "notnull"
+					}
+					weak[i] = u
+					kinds = append(kinds, "farlen")
+				}
+			}
+			if len(kinds) > 0 {
+				return Case{Fn: e.Name, Args: args, Weak: weak, Kinds: dedup(kinds)}
+			}
+		}
 		if len(args) > 0 {
 			// always weaken at least one argument; the others with probability 1/3
 			must := rapid.IntRange(0, len(args)-1).Draw(t, "must")
